@@ -479,12 +479,24 @@ class Engine(object):
             return self.ev(sl, s, lambda s2, i: self.index(o, i, s2, k, n))
         return self.ev(n.value, st, got)
 
+    def eff_index(self, st, idx, ln):
+        """Python index normalisation; the sign of the index is decided up front where the path
+        condition determines it, so that the terms stay free of if-then-else"""
+        sidx = z3.simplify(idx)
+        if z3.is_int_value(sidx):
+            return sidx + ln if sidx.as_long() < 0 else sidx
+        if not self.feasible(st, idx < 0):
+            return idx
+        if not self.feasible(st, idx >= 0):
+            return idx + ln
+        return z3.If(idx < 0, idx + ln, idx)
+
     def index(self, o, i, st, k, n=None):
         line = getattr(n, 'lineno', '?')
         if o.ty.kind == 'list':
             idx = ops.to_int(i).t
             ln = st.list_len(o)
-            eff = z3.If(idx < 0, idx + ln, idx)
+            eff = self.eff_index(st, idx, ln)
             ok = z3.And(eff >= 0, eff < ln)
             def good(s):
                 v = s.list_get(o, eff)
@@ -909,7 +921,7 @@ class Engine(object):
         if o.ty.kind == 'list':
             idx = ops.to_int(i).t
             ln = st.list_len(o)
-            eff = z3.If(idx < 0, idx + ln, idx)
+            eff = self.eff_index(st, idx, ln)
             ok = z3.And(eff >= 0, eff < ln)
             def good(s):
                 s.list_store(o, eff, v)
